@@ -30,6 +30,11 @@ referential-value-stored-twice) and reads the key of the instance the loader lin
 D is checked on every loaded instance before the first op and after every op.  The model does not construct the
 post-load state, so these cases have no K counterpart (model_line returns None).
 
+Family `words` (a flag on `rand` / `load` cases; D and K as there).  Attribute names are the words the library uses for the
+parameters of its own functions (setup reads them from the source text: a name source only, never an expectation).  A
+keyword that names an attribute must reach the attribute also when it is spelled exactly like a parameter of the function
+it passes through (new, MetaClass.new, the metaclass call, where_eq); the three constructor routes are used in turn.
+
 Domain.  ASCII names; association keys spelled as declared on the
 referential side.  Deletes address ANY attribute: one that holds a value (its value goes away), one that holds
 none or a referential one (D: no OTHER attribute may lose or change its value — signature
@@ -61,7 +66,7 @@ RULE = ('(1) exhaustive: every history of length L (quick 3, thorough 4) over th
         'definition are revisited after it) and redefinition attempts under other spellings; in (2) a third of the schemas give the '
         'second class attribute names of the first in another spelling, every write / delete / creation / selection is framed by a '
         'snapshot of all OTHER instances\' dictionaries and of the class dictionaries (must be unchanged), argument lists / dicts '
-        'are checked unchanged and mutated after the call; (4) loaded from text (D only): the same two-class schema with its association and 3-7 rows written as SQL text (named INSERTs with respelled, shuffled, partly omitted columns; matching, dangling and null referential values; uuid and integer spellings of unique_id values), built by xtuml.ModelLoader, then a random history of up to 25 ops as in (2); non-trivial = some cell was written under two '
+        'are checked unchanged and mutated after the call; (4) loaded from text (D only): the same two-class schema with its association and 3-7 rows written as SQL text (named INSERTs with respelled, shuffled, partly omitted columns; matching, dangling and null referential values; uuid and integer spellings of unique_id values), built by xtuml.ModelLoader, then a random history of up to 25 ops as in (2); (5) families (2) and (4) once more with about half of the attribute names taken from the parameter names of the functions of the library itself (read with ast from the source text of the tree under test; preferred: the parameters, *args / **kwargs names and identifier-like string constants of the functions that take attribute names as keywords - new, the metaclass call, where_eq), declared as they are or in another letter case, a third of their uses (constructor keywords, where_eq items, reads, writes, deletes, INSERT columns) spelled EXACTLY like the parameter, the instances created in turn through MetaModel.new, MetaClass.new and the metaclass call; non-trivial = some cell was written under two '
         'different spellings and read under yet another; distinct = distinct op sequence')
 EXHAUSTIVE = {'quick': True, 'thorough': True}
 ASSUMPTIONS = ['names are ASCII identifiers (str.upper on ASCII); association keys on the referential side are spelled as '
@@ -81,12 +86,53 @@ ABSENT = Sym('ABSENT')        # oracle: the cell holds no value (deleted)
 UNKNOWN = Sym('UNKNOWN')      # oracle: no demand (outside the domain / not determined by the history)
 
 _x = None
+_API_WORDS = ((), ())     # (names of the keyword-taking API functions, all other parameter names), filled by setup
+
+
+def _api_words(pkg_dir):
+    """The words the library's own functions use for THEIR parameters, read from the source text of the package (ast, nothing is
+    executed).  A modelled attribute may be called like any of them; where a function takes attribute names as keywords
+    (**kwargs: new, the metaclass call, where_eq, ...) a keyword spelled exactly like one of the function's own parameters must
+    still address the attribute.  First component: the parameter names (and identifier-like string constants) of the functions
+    that take **kwargs; second: the parameter names of every other function.  Only a source of NAMES for the generator - no
+    expectation is derived from it."""
+    import ast
+    import glob
+    hot, cold = set(), set()
+    for f in sorted(glob.glob(os.path.join(pkg_dir, '*.py'))):
+        try:
+            with open(f, encoding='utf-8') as fh:
+                tree = ast.parse(fh.read())
+        except (OSError, SyntaxError, ValueError):
+            continue
+        for node in ast.walk(tree):
+            if not isinstance(node, (ast.FunctionDef, ast.AsyncFunctionDef, ast.Lambda)):
+                continue
+            a = node.args
+            names = [p.arg for p in list(a.posonlyargs) + list(a.args) + list(a.kwonlyargs)]
+            for star in (a.vararg, a.kwarg):
+                if star is not None:
+                    names.append(star.arg)
+            if a.kwarg is not None:
+                hot.update(names)
+                for c in ast.walk(node):
+                    if isinstance(c, ast.Constant) and isinstance(c.value, str):
+                        hot.add(c.value)
+            else:
+                cold.update(names)
+
+    def usable(w):
+        return (re.fullmatch(r'[A-Za-z_][A-Za-z0-9_]{0,11}', w) is not None and any(ch.isalpha() for ch in w)
+                and not _is_dunder(w))
+    hot = sorted(w for w in hot if usable(w))
+    return hot, sorted(w for w in cold if usable(w) and w not in hot)
 
 
 def setup(ctx):
-    global _x
+    global _x, _API_WORDS
     import xtuml
     _x = xtuml
+    _API_WORDS = _api_words(os.path.dirname(os.path.abspath(xtuml.__file__)))
 
 
 # --------------------------------------------------------------------------- generation
@@ -184,9 +230,20 @@ def _sql_value(v, ty, r):
     return '%d' % v
 
 
-def _random_case(r, maxlen, load=False):
+def _random_case(r, maxlen, load=False, words=None):
     # schema: target class A (first attribute is the key), source class B with one referential attribute;
-    # with `load` the classes, the association and the first rows are given as SQL text to xtuml.ModelLoader
+    # with `load` the classes, the association and the first rows are given as SQL text to xtuml.ModelLoader;
+    # with `words` = (hot, cold) about half of the attribute names are words the library uses for the parameters of its own
+    # functions (hot: those of the functions that take attribute names as keywords), declared as they are or in another letter
+    # case, and a third of their uses spell them EXACTLY like the parameter
+    origin = {}           # NAME -> the word it was taken from (empty outside the `words` family: rs() then is respell())
+
+    def rs(nm):
+        w = origin.get(nm.upper())
+        if w is not None and r.random() < 0.3:
+            return w
+        return respell(r, nm)
+
     def ident(lo, hi):
         while True:
             nm = _ident(r, lo, hi)
@@ -214,9 +271,22 @@ def _random_case(r, maxlen, load=False):
                 cand = r.choice(['_', '__']) + nm
                 if not _is_dunder(cand):
                     nm = cand
+            w = None
+            if words is not None and r.random() < 0.5:
+                hot, cold = words
+                pool = hot if (hot and (not cold or r.random() < 0.5)) else (cold or PLAUSIBLE)
+                w = r.choice(pool)
+                how = r.random()
+                cand = w if how < 0.35 else (w.capitalize() if how < 0.55 else (w.upper() if how < 0.7 else respell(r, w)))
+                if not (load and (re.match(r'[Rr][0-9]', cand) or cand.upper() in SQL_RESERVED)):
+                    nm = cand
+                else:
+                    w = None
             if nm.upper() in seen:
                 continue
             seen.add(nm.upper())
+            if w is not None:
+                origin[nm.upper()] = w
             out.append([nm, respell(r, r.choice(TYPES))])
         return out
     ka, kb = ident(1, 5), ident(1, 5)
@@ -287,7 +357,7 @@ def _random_case(r, maxlen, load=False):
                 cols = [a for a, _ in attrs if r.random() < 0.85 or a == attrs[0][0]]
                 r.shuffle(cols)
                 sql.append('INSERT INTO %s (%s) VALUES (%s);' % (
-                    respell(r, kind), ', '.join(respell(r, a) for a in cols),
+                    respell(r, kind), ', '.join(rs(a) for a in cols),
                     ', '.join(_sql_value(row[a], dict(attrs)[a], r) for a in cols)))
                 for a, _ in attrs:
                     if a not in cols:
@@ -319,10 +389,10 @@ def _random_case(r, maxlen, load=False):
         kws = []
         for nm, ty in attrs:
             if r.random() < 0.35:
-                sp = respell(r, nm)
+                sp = rs(nm)
                 if nm != ref:
                     if r.random() < 0.15:                               # the same attribute under two spellings
-                        kws.append([respell(r, nm), _value(r, ty)])
+                        kws.append([rs(nm), _value(r, ty)])
                 kws.append([sp, _value(r, ty)])
         seen, kw2 = set(), []
         for k, v in kws:                                                # Python keyword names are unique (exact)
@@ -349,7 +419,7 @@ def _random_case(r, maxlen, load=False):
         _, attrs, ref = classes[K]
         nm, ty = r.choice(attrs)
         if what < 0.40:
-            ops.append(['set', i, respell(r, nm), _value(r, ty)])
+            ops.append(['set', i, rs(nm), _value(r, ty)])
             if nm != ref:
                 present[(i, nm.upper())] = True
         elif what < 0.50:
@@ -358,25 +428,25 @@ def _random_case(r, maxlen, load=False):
                 cands = [a for a, _ in attrs]                           # also empty cells and the referential attribute
             if cands:
                 a = r.choice(cands)
-                ops.append(['del', i, respell(r, a)])
+                ops.append(['del', i, rs(a)])
                 present[(i, a.upper())] = False
         elif what < 0.68:
             k = r.randint(1, 4)
             names = [r.choice(attrs)[0] for _ in range(k)]
-            ops.append(['reads', i, [respell(r, a) for a in names]])
+            ops.append(['reads', i, [rs(a) for a in names]])
         elif what < 0.80:
             kind = r.choice([ka, kb])
             _, cattrs, _ = classes[kind.upper()]
             filt = []
             for a, t in r.sample(cattrs, r.randint(0, min(2, len(cattrs)))):
-                filt.append([respell(r, a), _value(r, t)])
+                filt.append([rs(a), _value(r, t)])
             if filt and r.random() < 0.35:
                 # the SAME attribute named twice, under two spellings: both items address the one stored value, so with
                 # different values nothing can match, with equal values the second item changes nothing
                 a0, v0 = r.choice(filt)
                 t0 = dict((nm.upper(), ty) for nm, ty in cattrs)[a0.upper()]
                 for _ in range(6):
-                    sp2 = respell(r, a0)
+                    sp2 = rs(a0)
                     if all(sp2 != f[0] for f in filt):
                         filt.append([sp2, v0 if r.random() < 0.4 else _value(r, t0)])
                         break
@@ -396,10 +466,13 @@ def _random_case(r, maxlen, load=False):
             ops.append(['ser', i, [t for _, t in attrs]])
         else:
             ops.append(['find', respell(r, r.choice([ka, kb])) if r.random() < 0.8 else _ident(r, 1, 3)])
+    out = {'fam': 'rand', 'ops': ops}
     if load:
-        return {'fam': 'load', 'ops': ops, 'sql': '\n'.join(sql) + '\n', 'rows': rows,
-                'schema': {'a': [ka, a_attrs], 'b': [kb, b_attrs], 'ref': ref_name, 'tkey': a_attrs[0][0]}}
-    return {'fam': 'rand', 'ops': ops}
+        out = {'fam': 'load', 'ops': ops, 'sql': '\n'.join(sql) + '\n', 'rows': rows,
+               'schema': {'a': [ka, a_attrs], 'b': [kb, b_attrs], 'ref': ref_name, 'tkey': a_attrs[0][0]}}
+    if words is not None:
+        out['words'] = sorted(set(origin.values()))
+    return out
 
 
 LOOKUPS = ('find', 'new', 'sel', 'sel1')
@@ -484,6 +557,13 @@ def generate(ctx):
     rng = ctx.rng.fork('loaded')
     for i in range(ctx.pick(2500, 20000)):
         yield _random_case(rng.fork(i), 25, load=True)
+    # attributes named like the parameters of the library's own functions (read from the source text of the tree under test)
+    rng = ctx.rng.fork('api-words')
+    for i in range(ctx.pick(1000, 8000)):
+        yield _random_case(rng.fork(i), 30, words=_API_WORDS)
+    rng = ctx.rng.fork('api-words-loaded')
+    for i in range(ctx.pick(300, 2500)):
+        yield _random_case(rng.fork(i), 20, load=True, words=_API_WORDS)
 
 
 # --------------------------------------------------------------------------- implementation side
@@ -581,6 +661,10 @@ def run_impl(case):
     index_of = {}
     obs, fails = [], []
     stats = {'cases_' + case['fam']: 1}
+    if case.get('words') is not None:
+        stats['cases_api_words'] = 1
+        if case['words']:
+            stats['cases_api_words_with_such_attribute'] = 1
     written = {}           # (i, NAME) -> set of spellings written since the cell was last emptied
     nontrivial = False
 
@@ -810,7 +894,16 @@ def run_impl(case):
                 around = others(None)
                 returned = None
                 try:
-                    returned = m.new(op[1], *op[2], **kwargs)
+                    route = (n + len(op[2]) + len(op[3])) % 3 if (case.get('words') is not None and mc0 is not None) else 0
+                    stats['new_route_%d' % route] = stats.get('new_route_%d' % route, 0) + 1
+                    if route == 1:
+                        # the other routes to the same constructor (family `words` only; the class exists): the metaclass's own
+                        # new() and calling the metaclass
+                        returned = m.find_metaclass(op[1]).new(*op[2], **kwargs)
+                    elif route == 2:
+                        returned = m.find_metaclass(op[1])(*op[2], **kwargs)
+                    else:
+                        returned = m.new(op[1], *op[2], **kwargs)
                 except (x.MetaException, AttributeError) as e:
                     exc = e
                     res = _exc_name(e)
